@@ -146,8 +146,10 @@ def main() -> int:
     outs, derr = leanbridge.run_driver(driver, [c["req"] for c in tied]) if tied else ([], "")
     broken_corr = []
     if outs is None:
-        broken_corr.append({"kind": "driver-failed", "detail": derr})
-        outs = []
+        # the model driver itself did not run to the end (interpreter crash, time limit): that is trouble on the verification side,
+        # not an observation about the code — never a violation
+        print(f"HARNESS-ERROR property={prop}: model driver {driver} failed: {str(derr)[-1500:]}", flush=True)
+        return 2
     mismatches = []
     for c, o in zip(tied, outs):
         c["model"] = o
